@@ -508,7 +508,7 @@ def backend_family(label):
     return label if label in ('file-src', 'dir-src') else label.split('-')[0]
 
 
-_PHASE = {'unlink': 'rm', 'rmdir': 'rm', 'rename': 'mv', 'mkdir': 'wr', 'open-w': 'wr', 'write': 'wr',
+_PHASE = {'unlink': 'rm', 'rmdir': 'rm', 'rename': 'mv', 'mkdir': 'wr', 'open-w': 'wr', 'truncated': 'wr', 'write': 'wr',
           'close-w': 'wr', 'sql-dml': 'sql', 'sql-commit': 'sql', 'sql-script': 'sql', 'start': 'start'}
 
 
